@@ -19,7 +19,7 @@ def _init():
 
 
 def _job(args):
-    spec, seed, preempt, mons, want_trace, prefix = args
+    spec, seed, preempt, mons, want_trace, prefix, acc = args
     from . import monitors, scen
     t0 = time.time()
     run = scen.run_spec(spec, seed=seed, prefix=prefix, preempt=preempt)
@@ -35,6 +35,21 @@ def _job(args):
         except Exception as e:  # noqa: BLE001
             import traceback
             res["violations"].append({"monitor": m, "kind": "monitor-crash", "what": traceback.format_exc()[-1500:]})
+    if acc is not None:
+        from . import render
+        lines, idx = render.render(run.trace, log_size=spec.get("log_size", 0), hidden=acc, end_t=run.now)
+        try:
+            out = core.run_driver("accept", lines, timeout=600)
+            res["accept"] = out[0] if out else "NO-OUTPUT"
+        except Exception as e:  # noqa: BLE001
+            res["accept"] = f"DRIVER-ERROR {e}"
+        if not res["accept"].startswith("ACCEPT"):
+            want_trace = True
+            parts = res["accept"].split()
+            if parts[0] == "REJECT":
+                i = int(parts[1])
+                res["reject_context"] = lines[max(1, i - 12):i + 3]
+                res["reject_line"] = lines[i + 1] if i + 1 < len(lines) else None
     if run.status not in ("all-finished",):
         res["violations"].append({"monitor": "sched", "kind": "hang", "what": f"run ended with status {run.status}; threads still blocked: {run.blocked}"})
     if res["violations"] or want_trace:
@@ -54,9 +69,10 @@ def pool():
     return _pool
 
 
-def explore(jobs, mons, want_trace=False):
-    """jobs: list of (spec, seed, preempt[, prefix]).  Returns list of results in order."""
-    args = [(j[0], j[1], j[2], mons, want_trace, j[3] if len(j) > 3 else None) for j in jobs]
+def explore(jobs, mons, want_trace=False, accept=None):
+    """jobs: list of (spec, seed, preempt[, prefix]).  accept: None (no acceptor) or list of hidden output kinds.
+    Returns list of results in order."""
+    args = [(j[0], j[1], j[2], mons, want_trace, j[3] if len(j) > 3 else None, accept) for j in jobs]
     return pool().map(_job, args, chunksize=max(1, len(args) // 64))
 
 
